@@ -108,8 +108,8 @@ func (language *Language) Jennies(globalConfig languages.Config) *codejen.JennyL
 		common.If(!config.SkipRuntime && config.GenerateJSONMarshaller, &Deserializers{config: config, tmpl: tmpl}),
 		common.If(!config.SkipRuntime && config.GenerateJSONMarshaller, &Serializers{config: config, tmpl: tmpl}),
 		RawTypes{config: config, tmpl: tmpl},
-		common.If(config.GenerateBuilders, Builder{config: config, tmpl: tmpl}),
-		common.If(globalConfig.Builders, &Factory{config: config, tmpl: tmpl}),
+		common.If(!config.SkipRuntime && config.GenerateBuilders, Builder{config: config, tmpl: tmpl}),
+		common.If(!config.SkipRuntime && globalConfig.Builders, &Factory{config: config, tmpl: tmpl}),
 		common.If(!config.SkipRuntime && config.GenerateBuilders && config.GenerateConverters, &Converter{config: config, tmpl: tmpl}),
 
 		common.CustomTemplates{
